@@ -15,6 +15,19 @@ Search (on the real code; oracle = NumPy / bottleneck definitions, independent o
   sliding_window_view alone and under reductions, bottleneck move_* through map_overlap,
   overlap+trim identity, map_overlap stencils vs np.pad, diff, gradient, cumsum/cumprod/
   nancumsum/nancumprod and a non-commutative generic cumreduction (forward fill), both methods.
+  Extensions (harness/props_ext):
+  * c19_edge — special cells AT BLOCK EDGES: numpy.ma inputs to cumsum/cumprod (exhaustive masks × chunkings of
+    n ≤ 4, patterns "last cell of a block" / "whole block" / … in 1-D..3-D, all data dtypes, dtype=, axis=None),
+    masked arrays through diff / sliding windows / a periodic stencil; NaN at block edges for nan-scans, forward
+    fill, da.push (limit), bottleneck move_* and nan-reducers over windows; explicit dtype= × data dtype × method
+    with a slice selecting later blocks; diff prepend=/append=; diff / gradient (coordinate arrays) / scans
+    followed by slices; sliding_window_view(automatic_rechunk=False).
+  * c19_seq — overlap-family calls IN SEQUENCE in this one process (map_overlap plain / new_axis= / drop_axis= /
+    trim=False / two arrays / method form / allow_rechunk=False, overlap, trim_overlap, round trip, and the
+    internal users sliding_window_view, gradient, bottleneck move_*), depth and boundary spelled as scalar /
+    tuple / dict (partial, asymmetric) / per-array list / None, steps sharing or not sharing (ndim, depth,
+    boundary), eager and lazy evaluation orders; each step vs its NumPy definition, arguments unchanged
+    afterwards; failures confirmed (and order-dependent ones shortened) in fresh interpreters.
 Targeted: every model/implementation disagreement is lifted to API level (same chunks /
 window / block count) across all reducers / methods.
 """
@@ -535,11 +548,29 @@ def check_case(ctx, case):
     from dask_array import _overlap as O
 
     kind = case["kind"]
+    if kind == "ovseq":
+        from harness.props_ext import c19_seq
+
+        return c19_seq.replay(ctx, case)
+    if kind in ("mcum", "mwin"):
+        from harness.props_ext import c19_edge
+
+        return c19_edge.check(ctx, case)
     shape = tuple(case["shape"])
     chunks = tt(case["chunks"])
     dtype = case.get("dtype", "int")
     x = mk_data(shape, dtype, case.get("dseed", 0), case.get("nan", 0.0))
+    if case.get("prodsafe"):
+        # running products that stay exactly representable in every result dtype used
+        prng = np.random.default_rng(int(case.get("dseed", 0)) + 17)
+        x = prng.choice(np.array([2, -2, 3, -1, 1] if dtype == "int" else [2.0, -2.0, 0.5, -0.5, -1.0, 4.0]), size=shape).astype(x.dtype)
+    if case.get("np_dtype"):
+        t = np.dtype(case["np_dtype"])
+        x = (np.abs(x) if t.kind == "u" else x).astype(t)
+    for cell in case.get("nan_cells") or ():
+        x[tuple(cell)] = np.nan
     exact = dtype in ("int", "bool")
+    index = None if case.get("index") is None else tuple(slice(*i) for i in case["index"])
     sig = kind
     got = want = None
     phase = "oracle"
@@ -561,7 +592,11 @@ def check_case(ctx, case):
                 v = SWV(x, wa, axis=aa)
                 want = v if red is None else getattr(np, red)(v, axis=-1, keepdims=kd)
                 phase = "impl"
-                r = da.sliding_window_view(d, wa, axis=aa)
+                if case.get("automatic_rechunk", True):
+                    r = da.sliding_window_view(d, wa, axis=aa)
+                else:
+                    sig += ":no-automatic-rechunk"
+                    r = da.sliding_window_view(d, wa, axis=aa, automatic_rechunk=False)
                 if red is not None:
                     r = getattr(da, red)(r, axis=-1, keepdims=kd)
                 got = r.compute()
@@ -668,9 +703,27 @@ def check_case(ctx, case):
                     got = da.map_overlap(sten_r, d, depth=depth, boundary=boundary, dtype=x.dtype, axes=axes, radii=radii).compute()
             elif kind == "diff":
                 sig = "diff"
-                want = np.diff(x, n=case["n"], axis=case["axis"])
+                kw = {}
+                for name in ("prepend", "append"):
+                    v = case.get(name)
+                    if isinstance(v, dict):
+                        shp = list(shape)
+                        shp[case["axis"]] = int(v["arr"])
+                        kw[name] = mk_data(tuple(shp), dtype, case.get("dseed", 0) + (3 if name == "append" else 5))
+                    elif v is not None:
+                        kw[name] = v
+                if kw:
+                    sig = "diff:prepend/append"
+                want = np.diff(x, n=case["n"], axis=case["axis"], **kw)
                 phase = "impl"
-                got = da.diff(d, n=case["n"], axis=case["axis"]).compute()
+                r = da.diff(d, n=case["n"], axis=case["axis"], **kw)
+                if index is not None:
+                    sig += ":slice"
+                    r, want = r[index], want[index]
+                got = r.compute()
+                if tuple(r.shape) != want.shape and same(got, want, exact):
+                    ctx.fail(sig + ":meta", dict(case, meta=f"declared shape {tuple(r.shape)} != {want.shape}"), "declared shape differs")
+                    return "bad"
             elif kind == "gradient":
                 sig = f"gradient:edge{case['edge_order']}"
                 ax = case["axis"]
@@ -682,7 +735,11 @@ def check_case(ctx, case):
                 xf = x.astype(float)
                 want = np.gradient(xf, sp, axis=ax, edge_order=case["edge_order"])
                 phase = "impl"
-                got = da.gradient(d, sp, axis=ax, edge_order=case["edge_order"]).compute()
+                r = da.gradient(d, sp, axis=ax, edge_order=case["edge_order"])
+                if index is not None:
+                    sig = "gradient:coords:slice" if case["spacing"] == "coords" else "gradient:slice"
+                    r, want = r[index], want[index]
+                got = r.compute()
                 exact = False
             elif kind == "cum":
                 fn = case["func"]
@@ -694,11 +751,42 @@ def check_case(ctx, case):
 
                     want = _ffill_block(x, axis=ax)
                     phase = "impl"
-                    got = cumreduction(_ffill_block, _fill_last, np.nan, d, axis=ax, dtype=float, method=method, preop=_last_valid).compute()
+                    r = cumreduction(_ffill_block, _fill_last, np.nan, d, axis=ax, dtype=float, method=method, preop=_last_valid)
+                    if index is not None:
+                        sig += ":slice"
+                        r, want = r[index], want[index]
+                    got = r.compute()
                 else:
-                    want = getattr(np, fn)(x, axis=ax)
+                    kw = {} if case.get("out_dtype") is None else {"dtype": np.dtype(case["out_dtype"])}
+                    want = getattr(np, fn)(x, axis=ax, **kw)
                     phase = "impl"
-                    got = getattr(da, fn)(d, axis=ax, method=method).compute()
+                    r = getattr(da, fn)(d, axis=ax, method=method, **kw)
+                    if index is not None:
+                        # a slice of later blocks only: every block must be right on its own
+                        sig += ":slice"
+                        r, want = r[index], want[index]
+                    got = r.compute()
+                    if same(got, want, exact) and (np.asarray(got).dtype != want.dtype or r.dtype != want.dtype):
+                        c = dict(case)
+                        c["dtypes"] = {"computed": str(np.asarray(got).dtype), "advertised": str(r.dtype), "numpy": str(want.dtype)}
+                        ctx.fail(f"cum:{fn}:{method}:dtype", c, "the dtype of the computed blocks / the advertised dtype differs from NumPy's")
+                        return "bad"
+            elif kind == "push":
+                import bottleneck as bn
+
+                n_, ax = case["n"], case["axis"]
+                sig = "push"
+                if n_ == 0:
+                    sig = "push:n0"
+                elif ax < 0 and n_ is not None:
+                    sig = "push:negative-axis"
+                want = bn.push(x, axis=ax) if n_ is None else bn.push(x, n_, ax)
+                phase = "impl"
+                r = da.push(d, n_, ax)
+                if index is not None:
+                    sig += ":slice"
+                    r, want = r[index], want[index]
+                got = r.compute()
             else:
                 raise KeyError(kind)
     except Exception as e:  # noqa: BLE001
@@ -1006,6 +1094,22 @@ def search(ctx):
                 "axis": ax, "dtype": "float" if isf else "int", "nan": 0.3 if isf and fn != "cumsum" and fn != "cumprod" else 0.0, "dseed": k}
         run(case, (fn, case["method"], nd, ax is None, any(0 in c for c in cks)))
 
+    # ---- S5b special cells at block edges (masked arrays, NaN), explicit dtype=, prepend/append, slices after the operation
+    from harness.props_ext import c19_edge
+
+    for case, key in c19_edge.cases(ctx, 3 * 10**6):
+        run(case, key)
+
+    # ---- S6 overlap-family calls in sequence in this one process (LAST: a call that poisons later calls must not
+    # make the single-call streams above unreplayable); failures are confirmed in a fresh interpreter
+    import time as _time
+
+    from harness.props_ext import c19_seq
+
+    t0 = _time.time()
+    c19_seq.search(ctx)
+    stats["t.ovseq_s"] = round(_time.time() - t0, 1)
+
 
 # =========================================================================== targeted search
 
@@ -1111,7 +1215,9 @@ def run(ctx, replay=None):
         "correspondence: exhaustive small domain (all chunkings of n ≤ 8 × all windows/sizes; block counts 1..40) + seeded random "
         "larger inputs; distinct = (command, model output prefix, size class). search: one case = one API call on concrete data "
         "compared with the NumPy/bottleneck definition; distinct = (kind, reducer/method/boundary, native-path?, #blocks>1, "
-        "chunk<depth, window>block, outcome)"
+        "chunk<depth, window>block, outcome); edge streams: distinct = (stream, function, method, cell pattern relative to the "
+        "blocks, data dtype, dtype=, rank, sliced?, outcome); sequences: one case = 1..6 overlap-family calls made one after the "
+        "other in this process, distinct = (entry point, variant, depth spelling, boundary spelling, outcome)"
     )
     ctx.exhaustive = True
     ctx.assumptions += [
@@ -1120,6 +1226,9 @@ def run(ctx, replay=None):
         "float results compared with rtol/atol 1e-9 (search only); integer and boolean results compared exactly",
         "unknown (nan) chunk sizes are outside the model (the guards refuse them); the Rust records layers (_frisky_layer) are not built here",
         "consumers that embed the advertised chunks above a native sliding-window rewrite (broadcast_to/repeat/setitem; DESIGN §8.8) are not generated",
+        "history independence is searched, not proved: sequences of ≤ 6 overlap-family calls per case (plus everything the run made before) "
+        "against a fresh interpreter; other process state (config, caches outside dask_array._overlap) is not varied",
+        "masked-array results are compared on class, mask, unmasked values and dtype; the payload under the mask is unspecified",
     ]
     if replay is not None:
         case = replay.get("case", replay)
